@@ -2,7 +2,7 @@
 import json
 import os
 
-from .. import core, annot, translate_tables
+from .. import core, annot, translate_tables, translate_masscore
 from . import c02_common as cm
 
 PID = 'C02'
@@ -10,7 +10,8 @@ DRV = 'drv_c02'
 
 REGISTRY = {
     'id': 'C02',
-    'text': 'Lean (25 theorems): kernel-checked table obligations over modules regenerated from constants.py / data/chem.txt on every run '
+    'text': 'Mechanical tie for the arithmetic core: harness/translate_masscore.py reads the CURRENT source with ast and emits Generated/MassCorePy.lean (adjust_mass, adjust_mz, _parse_adduct_mass from mass_calc.py; chem_mass (dict argument) with its loop body from chem_util.py; merge_dicts with its two loops from util.py); Props/C02Gen (6 theorems) proves each equal to the hand model (GenMass.adjust_mass = Mass.adjustMass, adjust_mz = Mass.adjustMz, _parse_adduct_mass = Mass.adductMassP, chem_mass_loop1 = Chem.chemStep, chem_mass = Chem.chemMass, merge_dicts = Chem.merge for a first dict with distinct keys), so the theorems below hold for the definitions read off the source; hand-modelled only (tied by correspondence): mass, mz, comp_mass and the label path, _parse_charge_adducts_mass (isinstance dispatch), parse_ion_elements, parse_static_mods, the text branch of chem_mass; a function outside the translator subset is reported as untranslated and falls back to correspondence. '
+            'Lean (25 theorems): kernel-checked table obligations over modules regenerated from constants.py / data/chem.txt on every run '
             '(24 residue formulas = hand-typed formulas; 21 NIST nuclide masses within 1e-8; average masses within 1e-6; CODATA particles '
             'and |PROTON_MASS - (m(1H) - m_e)| <= 2e-8; ion-offset tables = backbone chemistry for 18 ion types x 2 modes; both encodings of '
             'the +1 ions) and, for the executable model of mass / mz: mass_eq_spec_partial / mz_eq_spec_partial / mass_eq_spec_concrete '
@@ -24,7 +25,7 @@ REGISTRY = {
             '/repo by differential correspondence at 1e-7 Da (every line of the modelled functions is executed in the quick tier) and '
             'the implementation is compared with the hand-typed NIST reference at 1e-5 Da (monoisotopic) / 2e-3 Da (average), '
             'labelled peptides included',
-    'note': 'trusted: Lean kernel; translator of the two tables; hand-typed NIST/CODATA reference data; per-value modification '
+    'note': 'trusted: Lean kernel; the Python subset reader harness/translate_masscore.py (its output Generated/MassCorePy.lean is committed and readable next to the source; round(x, p) is read as round-half-even on the exact rational, floats as exact rationals); translator of the two tables; hand-typed NIST/CODATA reference data; per-value modification '
             'resolution is a parameter of the model (C10); float summation error bounded by the 1e-7 correspondence tolerance. Not '
             'proved, correspondence + oracle only: global rules / adduct lists combined with isotope labels; float rounding near ties',
     'technique': 'Lean 4 proof about executable model + generated tables checked by kernel evaluation + differential correspondence '
@@ -142,7 +143,17 @@ def run(chk):
     rng = chk.rng
     tier = chk.tier
     translate_tables.translate(chk)
-    chk.lean_build(['PeptVerif.Props.C02'], DRV)
+    # mass_calc.py / chem_util.py / util.py arithmetic core -> Generated/MassCorePy.lean + Props/C02Gen.lean, regenerated on change
+    gen_done, gen_unt = translate_masscore.translate(chk)
+    chk.lean_build(['PeptVerif.Props.C02', 'PeptVerif.Props.C02Gen'], DRV)
+    chk.trusted += [
+        'harness/translate_masscore.py: the reading of the Python subset (None defaults, = += -=, d[k] = v, if/elif/else on == != in-tuple '
+        'in-TABLE is-True is-None and Python truthiness, or, + - * /, conditional expressions, TABLE[key] as KeyError, round -> '
+        'round-half-even on the exact rational, x[0].isdigit(), d.get(k, 0), for k, v in d.items() with continue, dict comprehension '
+        'filter, return, raise) into the combinators of the hand model; translated on this run: %s; hand-modelled only: '
+        '_parse_charge_adducts_mass (isinstance dispatch), parse_ion_elements, mass, mz, comp_mass and the label path%s'
+        % (', '.join(gen_done) or 'none', ''.join(', ' + k for k in gen_unt)),
+    ]
     chk.trusted += [
         'modelled: mass (fast path and label path), mz, adjust_mass, adjust_mz, _parse_charge_adducts_mass, _parse_adduct_mass, '
         'parse_ion_elements, chem_mass, merge_dicts, element_setup tables, chem_constants tables, comp_mass/_sequence_comp/'
@@ -651,12 +662,40 @@ def run(chk):
     chk.oracle('label_path_loss_and_precision', lcases, o_label, key_fn=lambda c: json.dumps(obj_of(*c), sort_keys=True), max_report=50)
     _attach_cases(chk, 'label_path_loss_and_precision', lcases, o_label)
 
-    # ------------------------------------------------------------------ oracle 6: m/z with precision (0 included), charge >= 2
     from decimal import Decimal as _D, ROUND_HALF_EVEN as _RHE
 
     def half_even(x, p):
         return float(_D(x).quantize(_D(1).scaleb(-p), rounding=_RHE))
 
+    # ------------------------------------------------------------------ oracle 3b: fast path - loss and isotope offset enter before the rounding
+    # (a result with precision p is a p-decimal number within half a unit of the unrounded mass; comparing at 1e-p alone would not
+    # notice a term added after the rounding)
+    fcases = []
+    for _ in range(250 if tier == 'quick' else 5000):
+        a = cm.gen_annotation(rng, kinds=cm.APRIORI, max_len=10)
+        kw = gen_kw(rng, adduct_p=0.1, prec_p=0.0, full=False)
+        kw['loss'] = rng.choice([-18.010565, -17.026549, round(rng.uniform(-100, 100), 5)])
+        kw['isotope'] = rng.choice([0, 1, 2, 3])
+        kw['precision'] = rng.choice([0, 1, 2, 3, 4])
+        fcases.append((a, kw))
+
+    def o_fast(c):
+        a, kw = c
+        k1 = dict(kw)
+        p = k1.pop('precision')
+        try:
+            unrounded = pt.mass(a.copy(), **k1)
+        except ValueError:
+            return None           # not a valid input (e.g. a numeric charge-adduct group)
+        r = pt.mass(a.copy(), **kw)
+        if abs(r - half_even(r, p)) > 1e-9 or abs(r - unrounded) > 0.5 * 10.0 ** -p + 1e-6:
+            return f'mass(loss={kw["loss"]}, isotope={kw["isotope"]}, precision={p}) = {r!r} is not the rounding of {unrounded!r}'
+        return None
+
+    chk.oracle('fast_path_precision_last', fcases, o_fast, key_fn=lambda c: json.dumps(obj_of(*c), sort_keys=True), max_report=50)
+    _attach_cases(chk, 'fast_path_precision_last', fcases, o_fast)
+
+    # ------------------------------------------------------------------ oracle 6: m/z with precision (0 included), charge >= 2
     mzp = []
     for _ in range(200 if tier == 'quick' else 5000):
         a = cm.gen_annotation(rng, kinds=['num', 'formula', 'named'], max_len=10, charge_p=0.4, static_p=0.1)
@@ -859,7 +898,8 @@ def run(chk):
 
     cm.attach_reach(chk, reach)
     if tier == 'thorough':
-        chk.leanchecker(['PeptVerif.Props.C02', 'PeptVerif.Model.Mass', 'PeptVerif.Model.Chem'])
+        chk.leanchecker(['PeptVerif.Props.C02', 'PeptVerif.Model.Mass', 'PeptVerif.Model.Chem', 'PeptVerif.Props.C02Gen',
+                         'PeptVerif.Lemmas.MassGen', 'PeptVerif.Generated.MassCorePy'])
     return chk.finish(classify)
 
 
